@@ -49,6 +49,7 @@ breaking('refix-clifford-cache', {'C07': 'H1'}, patch_reverse='fix_c3ac8d1.diff'
 breaking('refix-parse_simple_pauli', {'C19': 'Q1'}, patch_reverse='fix_c93f031.diff')
 breaking('refix-so3_to_angle', {'C15': 'MS1'}, patch_reverse='fix_f005967.diff')
 breaking('refix-rank-one-detector', {'C20': 'T1'}, patch_reverse='fix_4bf16b8.diff')
+breaking('refix-to_ball', {'C01': 'RB1'}, patch_reverse='fix_24b05d5.diff')
 breaking('refix-get_gme_2qubit', {'C13': 'F2', 'C05': 'F2'}, patch_reverse='fix_78cd862.diff')
 
 # ---- textual breaking edits, one per rule family
@@ -116,6 +117,8 @@ preserving('keep-bitstr-shift-big-endian', ['C11'], [(M + 'sim/state.py', "bitst
 breaking('R1-op-transposed', {'C03': 'R1'}, edit=[(M + 'sim/state.py', "ret = opt_einsum.contract(tmp0, tmp1, tmp2, tmp3+tuple(index), tmp5).reshape(-1)", "ret = opt_einsum.contract(tmp0, tmp1, tmp2, tuple(index)+tmp3, tmp5).reshape(-1)")])
 breaking('R1-dm-missing-conj', {'C03': 'R1'}, edit=[(M + 'sim/dm.py', "tmp2 = np.conjugate(op).reshape([2 for _ in range(2*N0)])", "tmp2 = op.reshape([2 for _ in range(2*N0)])")])
 breaking('R1-opgrad-transposed', {'C04': 'R1'}, edit=[(M + 'sim/state.py', "        tmp4 = list(index) + list(range(num_qubit,num_qubit+len(index)))\n", "        tmp4 = list(range(num_qubit,num_qubit+len(index))) + list(index)\n")])
+
+preserving('keep-ball-equivalent-form', ['C01'], [(M + 'manifold/_internal.py', "        tmp0 = np.linalg.norm(theta, axis=-1, keepdims=True)\n        ret = theta / (1+tmp0)\n", "        tmp0 = np.linalg.norm(theta, axis=-1, keepdims=True)\n        ret = theta * (1/(1+tmp0))\n"), (M + 'manifold/_internal.py', "        tmp0 = torch.linalg.norm(theta, dim=-1, keepdims=True)\n        ret = theta / (1+tmp0)\n", "        tmp0 = torch.linalg.norm(theta, dim=-1, keepdims=True)\n        ret = theta * (1/(1+tmp0))\n")])
 
 # ---- behaviour-preserving edits that must stay silent
 preserving('keep-rename-generator', ['C10'], [(M + 'random/_internal.py', "    np_rng = get_numpy_rng(seed)\n    assert dim>=2\n    tmp0 = np.triu(np_rng.integers(0, 2, size=(dim,dim)), 1)", "    gen = get_numpy_rng(seed)\n    assert dim>=2\n    tmp0 = np.triu(gen.integers(0, 2, size=(dim,dim)), 1)")])
